@@ -4,7 +4,7 @@
     [defect_C12_4] are the defect switches of the models as they stand now (all
     off: the patches are committed); [all_defects] is the code before them. *)
 From Gnmi Require Import Base.Prelude CTree.CTreeModel Total.IngestModel Total.SubReqModel
-  Total.ClientRecvModel Total.CliDisplayModel Total.C12Check Total.TotalProofs.
+  Total.ClientRecvModel Total.CliDisplayModel Total.StreamModel Total.C12Check Total.TotalProofs.
 
 (** 1. Cache ingest.  For every well-formed cache state and every
     wire-realisable notification, Cache.GnmiUpdate does not panic. *)
@@ -168,3 +168,19 @@ Theorem ingest_total_needs_named_targets :
   exists n w, wire_notif n = true /\ snd (ingest fixed_flags (new_cstate [""%string]) n) = GPanic w.
 Proof. exact ingest_needs_named_targets. Qed.
 Print Assumptions ingest_total_needs_named_targets.
+
+(** 7. The per-RPC sender goroutine's post-processing of every notification
+    the cache queues for a subscriber (MakeSubscribeResponse, isTargetDelete),
+    for every duplicate count and every notification, whatever the encoding of
+    its delete path. *)
+Theorem stream_post_total :
+  forall dup n w, stream_post dup n <> Panic w.
+Proof. exact stream_post_total_lemma. Qed.
+Print Assumptions stream_post_total.
+
+Theorem stream_target_delete_exact :
+  forall n, is_target_delete n = true <->
+    exists d, n_del n = [d] /\ gp_origin (gp_of_opt (n_prefix n)) = ""%string /\
+              to_strings false (gp_of_opt (n_prefix n)) ++ to_strings false d = ["*"%string].
+Proof. exact is_target_delete_spec. Qed.
+Print Assumptions stream_target_delete_exact.
